@@ -231,7 +231,11 @@ func (g *TemplateGenerator) methodData(ctx context.Context, method *types.Func, 
 			}
 			paramObjName = t.Obj().Name()
 		}
-		replacement := ifaceConfig.GetReplacement(paramPkgPath, paramObjName)
+		// Only a parameter whose type is a named (or alias) type can be replaced.
+		var replacement *config.ReplaceType
+		if paramObjName != "" {
+			replacement = ifaceConfig.GetReplacement(paramPkgPath, paramObjName)
+		}
 		if replacement != nil {
 			log.Debug().Str("replace-to-pkg-path", replacement.PkgPath).Str("replace-to-type-name", replacement.TypeName).Msg("found replacement")
 		} else {
@@ -268,7 +272,11 @@ func (g *TemplateGenerator) methodData(ctx context.Context, method *types.Func, 
 			paramObjName = t.Obj().Name()
 		}
 
-		replacement := ifaceConfig.GetReplacement(paramPkgPath, paramObjName)
+		// Only a result whose type is a named (or alias) type can be replaced.
+		var replacement *config.ReplaceType
+		if paramObjName != "" {
+			replacement = ifaceConfig.GetReplacement(paramPkgPath, paramObjName)
+		}
 		v, err := methodScope.AddVar(ctx, param, "", replacement)
 		if err != nil {
 			return template.Method{}, err
